@@ -28,6 +28,7 @@ LEVEL_ASSUMPTIONS = [
     "rtol=1e-3; wrong time grid or interpolator gives O(1))"]
 REQUIRED = {"multi_control_runs": 20, "direct_j_tables": 300,
             "multi_run_ode_results": 60, "hostile[glitch]": 5,
+            "mixed_scale_runs": 30,
             "direct_j_control_dims[2]": 50, "runs_judged": 300,
             "full_length_results": 150,
             "failure_rows": 20, "multi_cycle_runs": 20,
@@ -366,6 +367,52 @@ def linear_analytic(ctx, rng):
              case, analytic=expm_solution(M, s0))
 
 
+def mixed_scale(ctx, rng):
+    """Decoupled blocks of very different magnitude (unnormalised physical
+    units): a slowly decaying coordinate of 1e4..5e8 next to an oscillator
+    of amplitude ~0.01. Each block is compared with its own closed form,
+    relative to its OWN amplitude."""
+    from moptipyapps.dynamic_control.ode import run_ode
+    big = float(rng.choice([1e4, 1e6, 1e8, 5e8]))
+    dec = float(rng.uniform(0.02, 0.2))
+    om = float(rng.uniform(0.3, 1.0))
+    amp = float(rng.choice([0.01, 0.05, 1.0]))
+    tmax = float(rng.choice([5.0, 10.0, 30.0]))
+    steps = int(rng.choice([50, 500, 1500]))
+    A = [[-dec, 0.0, 0.0], [0.0, 0.0, -om], [0.0, om, 0.0]]
+    start = [big, amp, 0.0]
+    case = {"kind": "mixed_scale", "big": big, "dec": dec, "om": om,
+            "amp": amp, "tmax": tmax, "steps": steps}
+    ctx.case()
+    ctx.count("mixed_scale_runs")
+    install()
+    CNT.rhs = 0
+    CNT.cycles = 0
+    try:
+        res = run_ode(np.array(start), wrap_eq(lin_system(A, [0, 0, 0])),
+                      ctrl_zero, None, 1, steps, tmax)
+    except Budget:
+        ctx.count("undecided_runs_rhs_budget")
+        return
+    if judge_result(ctx, res, start, steps, tmax, ctrl_zero, None, 1,
+                    case) != "full":
+        return
+    t = res[:, -1]
+    want_big = big * np.exp(-dec * t)
+    want_osc = np.stack([amp * np.cos(om * t), amp * np.sin(om * t)], 1)
+    e_big = float(np.max(np.abs(res[:, 0] - want_big))) / big
+    e_osc = float(np.max(np.abs(res[:, 1:3] - want_osc))) / amp
+    tol = 0.02 + 0.003 * om * tmax
+    ctx.seen_max("max_mixed_scale_error_over_tolerance_percent",
+                 int(100 * max(e_big, e_osc) / tol))
+    if not (e_big <= tol and e_osc <= tol):
+        ctx.violation(
+            "state-differs-from-analytic-solution",
+            f"decoupled blocks: error {e_big:.3g} of the large coordinate "
+            f"({big:g}), {e_osc:.3g} of the oscillator's amplitude ({amp:g})"
+            f" > {tol:.3g} (T={tmax}, {om * tmax:.1f} rad)", case)
+
+
 def multi_control(ctx, rng):
     """Linear system with 2-3 control outputs that differ per channel."""
     n = int(rng.choice([2, 3]))
@@ -555,6 +602,8 @@ def run_shard(ctx, args):
             multi_control(ctx, rng)
         if it % 5 == 1:
             multi_entry(ctx, rng)
+        if it % 5 == 2:
+            mixed_scale(ctx, rng)
         if k in (0, 1):
             bundled(ctx, rng, it)
         elif k == 2:
@@ -570,6 +619,10 @@ def run_shard(ctx, args):
 def replay(ctx, case):
     rng = ctx.rng
     k = case["kind"]
+    if k == "mixed_scale":
+        for _ in range(150):
+            mixed_scale(ctx, rng)
+        return
     if k == "multi_entry":
         # the case is a function of the shard's random stream: re-run some
         for _ in range(200):
